@@ -38,7 +38,7 @@ theorem admissible_lossless (orc : String → Bool) (w : World) (e : Event) (h :
     lossless e := by
   intro t he
   subst he
-  simp [admissibleB] at h
+  simp [admissibleB, plainB] at h
 
 /-! ### soundness on every prefix -/
 
@@ -193,7 +193,7 @@ theorem step_qinv (sp : Spec) (orc : String → Bool) (rk : String → Nat) (hsp
         · rw [h1, hnc] at hc; cases hc
         · rw [h1] at hc; exact absurd hc (by decide)
         · rw [h1] at hc; rw [pause_completed _ hc] at hnc; cases hnc
-        · subst h1; simp [admissibleB] at ha
+        · subst h1; rw [adm_not_stop] at ha; cases ha
         · subst h1
           obtain ⟨h2, h3⟩ := resume_completes sp orc rk hss w h hc hnc
           exact ⟨fun _ => h2, fun _ => h3⟩
